@@ -501,9 +501,35 @@ func (b *TB) Bin(op Op, x, y *Term) *Term {
 		if x.IsConst() && x.C == 0 {
 			return x
 		}
-	case OpUDiv, OpSDiv:
+	case OpUDiv, OpSDiv, OpURem, OpSRem:
 		if y.IsConst() && y.C == 1 {
-			return x
+			if op == OpUDiv || op == OpSDiv {
+				return x
+			}
+			return b.Const(w, 0)
+		}
+		// division by a power of two: shifts and masks instead of a bit-blasted divider
+		if y.IsConst() && y.C != 0 && y.C&(y.C-1) == 0 && signExt(y.C, w) > 0 {
+			k := 0
+			for (uint64(1) << uint(k)) != y.C {
+				k++
+			}
+			kc := b.Const(w, uint64(k))
+			switch op {
+			case OpUDiv:
+				return b.Bin(OpLshr, x, kc)
+			case OpURem:
+				return b.Bin(OpBAnd, x, b.Const(w, y.C-1))
+			case OpSDiv, OpSRem:
+				// q = (x + ((x >>a (w-1)) >>l (w-k))) >>a k   (truncation toward zero)
+				sign := b.Bin(OpAshr, x, b.Const(w, uint64(w-1)))
+				bias := b.Bin(OpLshr, sign, b.Const(w, uint64(w-k)))
+				q := b.Bin(OpAshr, b.Bin(OpAdd, x, bias), kc)
+				if op == OpSDiv {
+					return q
+				}
+				return b.Bin(OpSub, x, b.Bin(OpShl, q, kc))
+			}
 		}
 	}
 	return b.mk(Term{Op: op, W: w, Args: []*Term{x, y}})
